@@ -42,6 +42,9 @@ def machines():
     yield "state-output-that-is-a-free-input", build({"s": ("input", []), "p": ("input", []), "x": ("input", []), "y": ("and", ["s", "p"]), "z": ("xor", ["s", "x"])}, outputs=["p", "y", "z"]), {"p": "s"}
     # no state at all: n independent copies, each reading its own step's inputs
     yield "no-state-pairs", build({"a": ("input", []), "b": ("input", []), "y": ("xor", ["a", "b"]), "z": ("nor", ["a", "y"])}, outputs=["y", "z"]), {}
+    # constants that are observed: a tie cell marked as an output, and one that is a state output (the next state is constant)
+    yield "observed-constant-output", build({"x": ("input", []), "s": ("input", []), "k1": ("1", []), "ns": ("xor", ["x", "s"]), "y": ("and", ["s", "k1"])}, outputs=["ns", "y", "k1"]), {"ns": "s"}
+    yield "constant-state-output", build({"x": ("input", []), "s": ("input", []), "k0": ("0", []), "y": ("or", ["x", "s"])}, outputs=["k0", "y"]), {"k0": "s"}
     yield "state-out-used-as-output", build({"x": ("input", []), "s": ("input", []), "ns": ("or", ["x", "s"])}, outputs=["ns"]), {"ns": "s"}
 
 
@@ -315,4 +318,24 @@ def run(chk):
         return r[1]
 
     stale_state_rule(chk, "C09.H.no-stale-state", _call, circuit_snapshot, FILE, "unroll")
+    # what one call was told to ignore does not carry over to the next one: a call that names the clock pin (as a str, as a list), then
+    # calls that do not, in ONE environment - each against the same call as the first one of a fresh environment
+    from ..stale import earlier_calls_rule
+    from ..pkgenv import Package as _Pkg
+
+    name0, c0, _ff0 = next(iter(seq_machines()))
+    seq_calls = [("ignore_pins='clk'", {"ignore_pins": "clk"}), ("no ignore_pins", {}), ("ignore_pins=['clk']", {"ignore_pins": ["clk"]}), ("no ignore_pins, flop outputs added", {"add_flop_outputs": True})]
+
+    def _mk_seq():
+        PH = _Pkg(repo)
+
+        def _do(kw):
+            r = PH.call(FILE, "sequential_unroll", c0.copy(), 2, "d", "q", **kw)
+            if r[0] != "return":
+                raise ModelRaise(r[1], r[2] if len(r) > 2 else "")
+            return r[1]
+        return _do
+
+    n_eval += earlier_calls_rule(chk, "C09.H.no-state-between-calls", _mk_seq, lambda res: (circuit_snapshot(res[0]), sorted((k, tuple(v)) for k, v in res[1].items())), FILE,
+                                 f"sequential_unroll::{name0}", [(lbl, (lambda kw=kw: kw)) for lbl, kw in seq_calls])
     chk.floor("unroll evaluations", n_eval, 40)
